@@ -55,3 +55,7 @@ def replay(ctx, data, log):
     elif data.get("source"):
         o = vlib.nlh("eval", ["50000 " + vlib.hexs(data["source"])], tag="c03r")[0]
         log("source: %s\nimplementation now: %s\nrecorded: %s" % (data["source"], o, data.get("observed")))
+
+
+def search(ctx, log):
+    progcheck.search_programs(ctx, log, n=4000 if ctx.quick else 40000)
